@@ -36,3 +36,23 @@ Definition known_drop_before_unreference_self (baseline models : schema) : bool 
     end) baseline.
 Definition known_C06_drop_order_self (c : m1_case) : bool :=
   (known_C06_drop_order c || known_drop_before_unreference_self (baseline_of c) (k_models c))%bool.
+
+(* C06-shrunk-constraint-target, remaining variant: EVERY column of a multi-column foreign key of a surviving table is deleted by the
+   plan (the partial case is known_shrunk_constraint).  DeleteColumn actions come one by one: after the first one apply_action has
+   shrunk `columns` but not `ref_columns`, so the intermediate schema holds a foreign key whose two column lists differ in length,
+   until the last of its columns goes. *)
+Definition known_fk_shrinks_to_nothing (baseline models : schema) : bool :=
+  existsb (fun bt =>
+    match table_named (t_name bt) models with
+    | None => false
+    | Some mt =>
+        let gone x := negb (mem_str x (colnames mt)) in
+        existsb (fun k =>
+          match k with
+          | CForeignKey _ cols _ rcols _ _ =>
+              (Nat.leb 2 (List.length cols) && Nat.leb 2 (List.length rcols) && forallb gone cols)%bool
+          | _ => false
+          end) (t_constraints (normalized_or_self bt))
+    end) baseline.
+Definition known_C06_shrink_any (c : m1_case) : bool :=
+  (known_C06_shrink c || known_fk_shrinks_to_nothing (baseline_of c) (k_models c))%bool.
